@@ -610,3 +610,44 @@ def units_type_errors(e, out=None) -> list:
     else:
         out.append(f"{e!r} is not a production of UExpr")
     return out
+
+
+# ---- a Dependent refinement one of whose dependencies is a NODE (an eq-dataclass instance: unhashable) beside a plain value ---------------
+class RExpr(ABC):
+    pass
+
+
+@dataclass
+class RWidth:
+    bits: Annotated[int, IntRange(1, 10)]
+
+
+@dataclass
+class RReg(RExpr):
+    signed: bool
+    width: RWidth
+    value: Annotated[int, Dependent("signed,width", lambda signed, width: IntRange(-(2 ** (width.bits - 1)) if signed else 0,
+                                                                                    2 ** (width.bits - 1) - 1 if signed else 2 ** width.bits - 1))]
+
+
+@dataclass
+class RPair(RExpr):
+    l: RExpr
+    r: RExpr
+
+
+def registers_grammar():
+    return extract_grammar([RReg, RPair, RWidth], RExpr)
+
+
+def register_violations(e, out=None) -> list:
+    out = [] if out is None else out
+    if isinstance(e, RPair):
+        register_violations(e.l, out)
+        register_violations(e.r, out)
+    elif isinstance(e, RReg):
+        b = e.width.bits
+        lo, hi = (-(2 ** (b - 1)), 2 ** (b - 1) - 1) if e.signed else (0, 2 ** b - 1)
+        if not (type(e.value) is int and lo <= e.value <= hi):
+            out.append(f"RReg(signed={e.signed}, width={b} bits).value = {e.value!r} is outside {lo}..{hi}")
+    return out
